@@ -3,14 +3,16 @@ In EXACT arithmetic (a linearly ordered field `K` whose `Num K` instance compute
 operations — `FieldLaws K` — and has no NaN) every one of the five chain methods is `ChainReducible`,
 and `<` satisfies `OrderLaws`.  So over such a `K` (e.g. `fieldNum ℚ`) the nnchain theorems hold for
 average / weighted / Ward too.  IEEE floats do NOT satisfy `FieldLaws` (and `ChainReducible` is false
-for them for weighted / Ward), which is why it stays a hypothesis in the float-facing statements.
-For average the clamp of the repaired `method::average` is a no-op here (`FieldLaws.average_eq_mean`,
-`Lemmas/AverageExact.lean`) and makes `ChainReducible α .average` a theorem for every ordered number
-type (`chainReducible_average`, `Lemmas/ChainIter.lean`).
+for them for the unguarded weighted), which is why it stays a hypothesis in the float-facing statements.
+For average and Ward the clamps of the repaired `method::average` / `method::ward` are no-ops here
+(`FieldLaws.average_eq_mean`, `Lemmas/AverageExact.lean`; `FieldLaws.ward_eq_formula`,
+`Lemmas/WardExact.lean`) and make `ChainReducible α .average` / `.ward` theorems for every ordered
+number type (`chainReducible_average`, `chainReducible_ward`, `Lemmas/ChainIter.lean`).
 -/
 import Kodama.Lemmas.ChainIter
 import Kodama.Lemmas.FieldNum
 import Kodama.Lemmas.AverageExact
+import Kodama.Lemmas.WardExact
 import Mathlib.Tactic.Ring
 import Mathlib.Tactic.Linarith
 namespace Kodama
@@ -61,7 +63,7 @@ theorem weighted_ge (F : FieldLaws K) (va vb t : K) (h1 : t ≤ va) (h2 : t ≤ 
 
 theorem ward_ge (F : FieldLaws K) (sa sb sx : Nat) (hsa : 0 < sa) (va vb dab t : K)
     (h0 : dab ≤ t) (h1 : t ≤ va) (h2 : t ≤ vb) : t ≤ Gen.ward va vb dab sa sb sx := by
-  simp only [Gen.ward, F.add, F.sub, F.mul, F.div, F.ofNat]
+  rw [F.ward_eq_formula_pos va vb dab sa sb sx hsa]
   have ha : (0 : K) < (sa : K) := by exact_mod_cast hsa
   have hb : (0 : K) ≤ (sb : K) := by exact_mod_cast Nat.zero_le sb
   have hx : (0 : K) ≤ (sx : K) := by exact_mod_cast Nat.zero_le sx
